@@ -12,12 +12,14 @@ import (
 
 func init() {
 	register(&Rule{
-		ID: "MT", Props: []string{"C01", "C02"}, Min: 3,
+		ID: "MT", Props: []string{"C01", "C02", "C17"}, Min: 4,
 		Doc: `the format of an input is decided on the bytes that were read and does not depend on the length of the first record or on quote characters in it: in pkg/obiformats.OBIMimeTypeGuesser
 (1) the argument of mimetype.Detect is the buffer sliced to the count returned by the read (not the whole buffer, whose tail is zero bytes); (2) mimetype.SetLimit is called, in the function, with
 0 or with a constant not smaller than the buffer — the library otherwise hands only 3072 bytes to the detectors, and the FASTQ detector needs the whole first record: a FASTQ file the toolkit wrote
 whose first read is longer than ~3 kb is refused as text/plain while the same bytes are accepted on stdin; (3) for every parent type the CSV detector (the one driving encoding/csv) is registered
-before the FASTA and FASTQ detectors — Extend prepends, so it is tried after them: a FASTQ record whose JSON title holds ,"b" and whose quality line ends with '"' otherwise reads as two-field CSV rows.`,
+before the FASTA and FASTQ detectors — Extend prepends, so it is tried after them: a FASTQ record whose JSON title holds ,"b" and whose quality line ends with '"' otherwise reads as two-field CSV rows;
+(4) the CSV detector is not registered under application/octet-stream (what is not a text): a compressed file whose magic number is damaged is binary data, and the lenient detector took 2% of
+them for a table.`,
 		Run: runMT,
 	})
 }
@@ -209,6 +211,19 @@ func runMT(c *Ctx, s *Sink) {
 					bad = par
 				}
 			}
+		}
+		// (4) binary data are not tried as CSV
+		key4 := base + ":csv-not-for-binary"
+		binCSV := false
+		for _, e := range exts {
+			if e.det == csvObj && strings.Contains(e.parent, "octet-stream") {
+				binCSV = true
+			}
+		}
+		if binCSV {
+			s.Fail(nil, key4, fd.Pos(), "the CSV detector is also registered under application/octet-stream, the type of what is not a text: it only asks for two lines with the same number (>1) of comma-separated fields, which about 2% of the 0.3–1.5 kB gzip/bzip2/xz files with one bit of their magic number flipped satisfy — they are read as CSV, a record without sequence is invented and obicount, obisummary, obicsv, obiconvert --json-output exit 0")
+		} else {
+			s.Pass(nil, key4, fd.Pos(), "the CSV detector is registered for text only")
 		}
 		if bad != "" {
 			s.Fail(nil, key, fd.Pos(), "under "+bad+" the CSV detector is registered after the FASTA/FASTQ detectors; Extend prepends, so CSV is tried first: a FASTQ the toolkit wrote, whose JSON title holds ,\"b\" and whose quality line ends with '\"' (Phred 1), is read as two-field CSV rows (text/csv) and the read-back aborts")
